@@ -42,6 +42,13 @@ inductive Cpt (K : Type) where
   | TR   (n1 n2 m : Nat) (a : K)                        -- transfer block: V(n2) = a·V(n1), both w.r.t. ground
   | Y    (n1 n2 : Nat) (y : K)                          -- admittance (value at the sample point)
   | Open (n1 n2 : Nat)                                  -- O, P, VM: no current
+  | TPA  (n1 n2 n3 n4 m : Nat) (a11 a12 a21 a22 : K)    -- two-port, chain parameters; port 1 = (n3,n4), port 2 = (n1,n2);
+                                                        -- branch m = current entering port 2 at n1
+  | TPY  (n1 n2 n3 n4 : Nat) (y11 y12 y21 y22 : K)      -- two-port, admittance parameters, same ports
+  | HY   (n1 n2 m n3 n4 mc : Nat) (y isc h : K)         -- CCVS controlled by the current y·V(n3,n4) − isc through an
+                                                        -- admittance-type component (R, C, Y) between n3 and n4;
+                                                        -- branch mc is that (reported) control current
+  | SP   (n1 n2 n3 n4 m : Nat) (c1 c2 c4 : K)           -- summing point: V(n3) = c1·V(n1) + c2·V(n2) + c4·V(n4), all w.r.t. ground
 deriving Repr
 
 variable {K : Type} [Add K] [Mul K] [Neg K] [Sub K] [Div K] [OfNat K 0] [OfNat K 1] [OfNat K 2]
@@ -82,6 +89,14 @@ def outflow (kind : Kind) (s : K) (x : Ix → K) (k : Nat) : Cpt K → K
   | .TR _ n2 m _ => twoTerm n2 0 k (x (.br m))
   | .Y n1 n2 y => twoTerm n1 n2 k (y * vd x n1 n2)
   | .Open _ _ => 0
+  | .TPA n1 n2 n3 n4 m _ _ a21 a22 =>
+      -- I2 = J enters at n1; I1 = A21·V2 − A22·I2 enters at n3
+      twoTerm n1 n2 k (x (.br m)) + twoTerm n3 n4 k (a21 * vd x n1 n2 - a22 * x (.br m))
+  | .TPY n1 n2 n3 n4 y11 y12 y21 y22 =>
+      -- I1 = Y11·V1 + Y12·V2 enters at n3; I2 = Y21·V1 + Y22·V2 enters at n1
+      twoTerm n3 n4 k (y11 * vd x n3 n4 + y12 * vd x n1 n2) + twoTerm n1 n2 k (y21 * vd x n3 n4 + y22 * vd x n1 n2)
+  | .SP _ _ n3 _ m _ _ _ => twoTerm n3 0 k (x (.br m))
+  | .HY n1 n2 m _ _ _ _ _ _ => twoTerm n1 n2 k (x (.br m))
 
 /-- sum of a list in the carrier -/
 def lsum : List K → K
@@ -119,6 +134,9 @@ def laws (kind : Kind) (s : K) (x : Ix → K) : Cpt K → List (Nat × K)
   | .GY n1 n2 n3 n4 m1 m2 r => [(m1, vd x n1 n2 + r * x (.br m1)), (m2, vd x n3 n4 - r * x (.br m2))]
   | .AM n1 n2 m => [(m, vd x n1 n2)]
   | .TR n1 n2 m a => [(m, volt x n2 - a * volt x n1)]
+  | .TPA n1 n2 n3 n4 m a11 a12 _ _ => [(m, vd x n3 n4 - (a11 * vd x n1 n2 - a12 * x (.br m)))]   -- V1 = A11·V2 − A12·I2
+  | .HY n1 n2 m n3 n4 mc y isc h => [(m, vd x n1 n2 - h * x (.br mc)), (mc, x (.br mc) - (y * vd x n3 n4 - isc))]
+  | .SP n1 n2 n3 n4 m c1 c2 c4 => [(m, volt x n3 - (c1 * volt x n1 + c2 * volt x n2 + c4 * volt x n4))]
   | _ => []
 
 /-- KCL at every non-ground node and every component's defining relation. -/
